@@ -48,13 +48,18 @@ def same_tensor_state(a, b):
     return None
 
 
+DOMAIN_PROBES = {}      # node label -> the values the domain was built from (set per case)
+
+
 def snapshot(fgg, extra_graphs=()):
     s = dict(struct=GI.snap(fgg), weights={}, extra=[GI.snap(g) for g in extra_graphs])
     for name, f in fgg.factors.items():
         w = f.weights
         s['weights'][name] = dict(t=tensor_state(w.physical), default=repr(w.default), paxes=tuple(id(k) for k in w.paxes),
                                   vaxes=repr([A.ax_shape_key(e, {}) for e in w.vaxes]), obj=id(w), pobj=id(w.physical))
-    s['domains'] = {k: (type(d).__name__, repr(d.to_json())) for k, d in fgg.domains.items()}
+    # read through the accessors (not through to_json, which is one of the monitored writers), type-sensitively
+    s['domains'] = {k: (type(d).__name__, d.size(), repr([(type(v).__name__, v) for v in getattr(d, 'values', [])]),
+                        repr([d.numberize(v) if d.contains(v) else None for v in DOMAIN_PROBES.get(k, [])])) for k, d in fgg.domains.items()}
     return s
 
 
@@ -99,8 +104,10 @@ def result_repr(q, val):
         return ('rules', [(r.lhs.name, iso.from_graph(r.rhs)) for r in val.all_rules()])
     if q == 'conjoin':
         return ('rules', [(r.lhs.name, iso.from_graph(r.rhs)) for r in val.all_rules()])
-    if q in ('fgg_to_json', 'hrg_to_json'):
-        return ('obj', json.dumps(val, sort_keys=True))
+    if q in ('fgg_to_json', 'hrg_to_json', 'fz:fgg_to_json', 'fz:hrg_to_json'):
+        return ('obj', json.dumps(val, sort_keys=True, default=lambda o: sorted(map(repr, o)) if isinstance(o, (set, frozenset)) else repr(o)))
+    if q == 'fz:sum_product':
+        return ('tensor', val.to_dense())
     if q == 'copy':
         return ('obj', GI.snap(val))
     return ('obj', repr(val))
@@ -154,7 +161,26 @@ def run_case(tier, seed, index, spec=None):
         if x.ndim >= 2 and r < 0.5:
             return x.transpose(0, 1).contiguous().transpose(0, 1)
         return x
-    fgg, info = G.build_fgg(fggs, spec, 'real', torch.float64, explicit_ids=True, weight_builder=builder or stride0_builder, requires_grad=grad)
+    domvals = None
+    DOMAIN_PROBES.clear()
+    if index % 3 == 2:
+        # finite domains whose values are tuples / frozensets (the JSON writers have to convert them -- on a copy)
+        domvals = {l: [((l, i) if i % 2 == 0 else frozenset([l, str(i)])) for i in range(sz)] for l, sz in spec['domains'].items()}
+        DOMAIN_PROBES.update(domvals)
+    fgg, info = G.build_fgg(fggs, spec, 'real', torch.float64, explicit_ids=True, weight_builder=builder or stride0_builder, requires_grad=grad,
+                            domain_kind='finite' if domvals else 'range', domain_values=domvals)
+    # a grammar the library itself produced: factorize_fgg of a grammar that interprets a terminal no rule uses
+    fz = None
+    if index % 2 == 1 and spec['domains']:
+        try:
+            base = fgg.copy()
+            lab0 = sorted(spec['domains'])[0]
+            el_u = fggs.EdgeLabel('t_unused_c18', [info['nl'][lab0]], is_terminal=True)
+            base.add_edge_label(el_u)
+            base.new_finite_factor('t_unused_c18', torch.ones(spec['domains'][lab0], dtype=torch.float64))
+            fz = fggs.factorize_fgg(base, method='min_fill')
+        except Exception:
+            fz = None
     # a second grammar over the same node / nonterminal-edge ids for conjoin_hrgs
     g2 = fggs.HRG(fgg.start)
     for r in fgg.all_rules():
@@ -212,6 +238,12 @@ def run_case(tier, seed, index, spec=None):
             return F.hrg_to_json(fgg)
         if q == 'copy':
             return fgg.copy()
+        if q == 'fz:fgg_to_json':
+            return F.fgg_to_json(fz)
+        if q == 'fz:hrg_to_json':
+            return F.hrg_to_json(fz)
+        if q == 'fz:sum_product':
+            return fggs.sum_product(fz, method='fixed-point', semiring=sr_real, **kw)
         raise KeyError(q)
     rng_method = rng.choice(['min_fill', 'quickbb', 'acb'])
     # third grammar for conjoin: nonterminal-only copy with other label names is not needed; conjoin g2 with a structural twin
@@ -226,6 +258,8 @@ def run_case(tier, seed, index, spec=None):
             rhs.add_edge(fggs.Edge(ren[e.label.name], list(e.nodes), id=e.id))
         g2b.add_rule(fggs.HRGRule(ren[r.lhs.name], rhs))
     pool = [q for q in QUERIES if not (q == 'sp-real-linear' and not linear_ok) and not (q == 'viterbi' and asst is None) and not (q == 'factorize_rule' and rule0 is None)]
+    if fz is not None:
+        pool = pool + ['fz:fgg_to_json', 'fz:fgg_to_json', 'fz:hrg_to_json', 'fz:sum_product']
     seq = [rng.choice(pool) for _ in range(12)]
     # make sure queries repeat
     seq[6:9] = seq[0:3]
@@ -233,6 +267,7 @@ def run_case(tier, seed, index, spec=None):
     repeated = 0
     for step, q in enumerate(seq):
         before = snapshot(fgg, (g2, g2b))
+        before_fz = snapshot(fz) if fz is not None else None
         try:
             twin = fgg.copy()             # == is a public observation too: the grammar must stay equal to a copy taken before
             twin_ok = (fgg == twin)
@@ -243,6 +278,10 @@ def run_case(tier, seed, index, spec=None):
         after = snapshot(fgg, (g2, g2b))
         obs['snapshots_compared'] += 1
         d = diff_snapshot(before, after)
+        if d is None and fz is not None:
+            d2 = diff_snapshot(before_fz, snapshot(fz))
+            if d2:
+                d = 'the factorized grammar passed to the query: ' + d2
         if d is None and twin_ok:
             obs['equality_with_earlier_copy_checked'] = obs.get('equality_with_earlier_copy_checked', 0) + 1
             if not (fgg == twin):
